@@ -313,6 +313,116 @@ def ob_splice(form):
     return h
 
 
+def ob_kwargs(op):
+    """kwargs set / delete / add / remove on project() through the real process_kwargs + apply_changes; values are symbolic strings (quotes and backslashes included)"""
+    def h():
+        import types
+        A = "ab '\\"
+        lic = [sym_str(1 + choose(2, 'll%d' % i), 'lic%d' % i, alphabet='ab ') for i in range(2)]
+        text = "project('p', 'c', license : ['" + lic[0] + "', '" + lic[1] + "'], version : '1')\nx = 1\n"
+        store = {'meson.build': text}
+        ast = mp.Parser(text, 'meson.build').parse()
+        rw = object.__new__(R.Rewriter)
+        rw.modified_nodes = []; rw.to_remove_nodes = []; rw.to_add_nodes = []; rw.skip_errors = False; rw.info_dump = None
+        rw.interpreter = types.SimpleNamespace(project_node=ast.lines[0])
+        exp_lic = list(lic); exp_ver = '1'
+        if op == 'set':
+            v = sym_str(1 + choose(2, 'vl'), 'newversion', alphabet=A)
+            kw = {'version': v}; exp_ver = v
+        elif op == 'delete':
+            kw = {'version': None}; exp_ver = None
+        elif op == 'add':
+            v = sym_str(1 + choose(2, 'vl'), 'newlicense', alphabet=A)
+            kw = {'license': [v]}; exp_lic = lic + [v]
+        else:
+            v = sym_str(1 + choose(2, 'vl'), 'oldlicense', alphabet='ab ')
+            kw = {'license': [v]}
+            exp_lic = [l for l in lic if not (len(l) == len(v) and decide(bt_any(l == v)))]
+        cmd = {'type': 'kwargs', 'function': 'project', 'id': '/', 'operation': op, 'kwargs': kw}
+        saved = (R.__dict__.get('open'), R.os)
+        R.open = lambda path, mode='r', **k: FakeFile(store, path, mode)
+        R.os = FakeOS
+        try:
+            rw.process_kwargs(cmd)
+            rw.apply_changes()
+        finally:
+            R.os = saved[1]
+            if saved[0] is None: del R.open
+            else: R.open = saved[0]
+        got = store['meson.build']
+        try:
+            ast2 = mp.Parser(got, 'meson.build').parse()
+        except mp.ParseException:
+            check(False, 'the edited file still parses'); return
+        kw2 = {k.value: unwrap(v_) for k, v_ in ast2.lines[0].args.kwargs.items()}
+        def strs(n):
+            if n is None: return []
+            if isinstance(n, mp.ArrayNode): return [unwrap(a).value for a in n.args.arguments]
+            return [n.value]
+        gl = strs(kw2.get('license'))
+        check(len(gl) == len(exp_lic), 'license: exactly the requested values')
+        if len(gl) == len(exp_lic):
+            for g, e in zip(gl, exp_lic): check(len(g) == len(e) and decide(bt_any(eq(g, e))) if len(g) == len(e) else False, 'license: values (after escape decoding) and order')
+        if exp_ver is None:
+            check('version' not in kw2, 'a deleted keyword is gone')
+        else:
+            g = kw2['version'].value if 'version' in kw2 else None
+            check(g is not None and len(g) == len(exp_ver) and decide(bt_any(eq(g, exp_ver))), 'version has exactly the requested new value')
+        check(got.endswith("x = 1\n") and len(ast2.lines) == 2, 'the rest of the file is untouched')
+        cover('done')
+    return h
+
+
+def ob_default_options(op):
+    """default-options set / delete through the real Rewriter.process_default_options -> process_kwargs -> MTypeStrList -> apply_changes:
+    exactly the entries of the addressed option go, every other entry stays, in order; `set` appends the new value"""
+    def h():
+        import types
+        from mesonbuild import options as O
+        target = ['b', 'ab', 'a_b'][choose(3, 'target')]
+        names = [sym_str(1 + choose(3, 'nl%d' % i), 'name%d' % i, alphabet='ab_') for i in range(2)]
+        entries = [n + '=v%d' % i for i, n in enumerate(names)]
+        pre = "project('p', 'c', default_options : ['" + entries[0] + "', '" + entries[1] + "'], version : '1')\n"
+        text = pre + "x = 1\n"
+        store = {'meson.build': text}
+        ast = mp.Parser(text, 'meson.build').parse()
+        rw = object.__new__(R.Rewriter)
+        rw.modified_nodes = []; rw.to_remove_nodes = []; rw.to_add_nodes = []; rw.skip_errors = False; rw.info_dump = None
+        opt = O.UserStringOption(target, 'x', 'd')
+        rw.interpreter = types.SimpleNamespace(project_node=ast.lines[0], coredata=types.SimpleNamespace(optstore={target: opt}))
+        cmd = {'type': 'default_options', 'operation': op, 'options': {target: 'new'}}
+        saved = (R.__dict__.get('open'), R.os)
+        R.open = lambda path, mode='r', **k: FakeFile(store, path, mode)
+        R.os = FakeOS
+        try:
+            rw.process_default_options(cmd)
+            rw.apply_changes()
+        finally:
+            R.os = saved[1]
+            if saved[0] is None: del R.open
+            else: R.open = saved[0]
+        got = store['meson.build']
+        try:
+            ast2 = mp.Parser(got, 'meson.build').parse()
+        except mp.ParseException:
+            check(False, 'the edited file still parses'); return
+        fn = ast2.lines[0]
+        kw = {k.value: v for k, v in fn.args.kwargs.items()}
+        dn = unwrap(kw['default_options']) if 'default_options' in kw else None
+        if dn is None: vals = []
+        elif isinstance(dn, mp.ArrayNode): vals = [unwrap(a).value for a in dn.args.arguments]
+        else: vals = [dn.value]                  # a single remaining entry may be written as a plain string
+        hit = [decide(bt_any(n == target)) if len(n) == len(target) else False for n in names]
+        exp = [e for e, hh in zip(entries, hit) if not hh] + ([target + '=new'] if op == 'set' else [])
+        check(len(vals) == len(exp), 'default_options: exactly the addressed option is removed / replaced, every other entry stays')
+        if len(vals) == len(exp):
+            for g, e in zip(vals, exp): check(len(g) == len(e) and decide(bt_any(eq(g, e))) if len(g) == len(e) else False, 'default_options: entries and order')
+        check('version' in kw and unwrap(kw['version']).value == '1', 'other keyword arguments are untouched')
+        check(got.endswith("x = 1\n"), 'the rest of the file is untouched')
+        cover('hit' if any(hit) else 'miss')
+    return h
+
+
 def obligations(tier):
     q = tier == 'quick'
     out = [Obligation('reprint[depth 1]', ob_reprint(1), dict(depth=1, operators=BIN, strings='1 symbolic body <=3 over ' + repr(SA)), labels=('roundtrip',), max_paths=5000000)]
@@ -320,6 +430,11 @@ def obligations(tier):
         out.append(Obligation('operator-pairs[%d]' % f, ob_pairs(f), dict(form=f, operators='all pairs of ' + repr(BIN)), labels=('roundtrip',), max_paths=5000000))
     if not q:
         out.append(Obligation('reprint[depth 2]', ob_reprint(2), dict(depth=2, operators=BIN2), labels=('roundtrip', 'source-rejected'), max_paths=50000000, path_timeout=300))
+    for op in ('set', 'delete', 'add', 'remove'):
+        out.append(Obligation('kwargs[%s]' % op, ob_kwargs(op), dict(function='project', kwargs='version (string), license (list of 2 symbolic strings)', value="1-2 chars over {a, b, space, quote, backslash}"),
+                              labels=('done',), max_paths=3000000))
+    for op in ('set', 'delete'):
+        out.append(Obligation('default-options[%s]' % op, ob_default_options(op), dict(existing='2 entries, names 1-3 chars over ab_', addressed='b | ab | a_b'), labels=('hit', 'miss'), max_paths=3000000))
     out.append(Obligation('synthetic-plus', ob_synthetic_plus(), dict(old_value='every depth-1 expression shape', new='old + [str] as Rewriter.add_src_or_extra builds it'), labels=('roundtrip',), max_paths=5000000))
     for n in range(0, 4 if q else 5):
         out.append(Obligation('string[%d]' % n, ob_string(n, False), dict(length=n, alphabet=SA + 'x0'), labels=('roundtrip',) , max_paths=5000000))
